@@ -14,6 +14,7 @@ import itertools
 import math
 
 import numpy as np
+import scipy.stats
 
 from sim import workload
 from sim.core import EndRun, close, np_seed
@@ -249,17 +250,25 @@ def run_bounds(case, ctx, lm):
     S = (1 - eta) * (g.random((200000, N)) < c["p"]).astype(float) @ w
     for name, level, lo_key, hi_key in (("warning", c["warning_level"], "lb_warn", "ub_warn"), ("detect", c["detect_level"], "lb_detect", "ub_detect")):
         lb, ub = float(b[lo_key]), float(b[hi_key])
-        sigma = math.sqrt(level * (1 - level) / 2000 + level * (1 - level) / 200000)
         if lb > ub + 1e-12:
             ctx.violation("bounds", "C06:bounds_orientation", f"{name}: lower bound {lb} above upper bound {ub}; {c}")
             raise EndRun()
-        lo_strict, lo_weak = float(np.mean(S < lb - 1e-12)), float(np.mean(S <= lb + 1e-12))
-        hi_strict, hi_weak = float(np.mean(S > ub + 1e-12)), float(np.mean(S >= ub - 1e-12))
-        if lo_strict > level + 5 * sigma or lo_weak < level - 5 * sigma or hi_strict > level + 5 * sigma or hi_weak < level - 5 * sigma:
-            ctx.violation("bounds", "C06:bounds_level",
-                          f"{name} level {level}: P(S<lb)={lo_strict:.4f}, P(S<=lb)={lo_weak:.4f}, P(S>ub)={hi_strict:.4f}, P(S>=ub)={hi_weak:.4f} for lb={lb}, ub={ub} "
-                          f"(5 sigma = {5 * sigma:.4f}); p={c['p']} N={N} eta={eta}")
-            raise EndRun()
+        # exact binomial test (the normal approximation has too light a tail for a 1 % quantile of 2000 draws): if the true
+        # probability of falling beyond the returned bound is f, the number of the 2000 Monte-Carlo draws beyond it is
+        # Binomial(2000, f), and by construction of a percentile about 2000*level of them are.  f is estimated from 200k
+        # independent draws and moved by 4 of its own standard errors towards `level` before testing.  Alarm below 1e-9.
+        n_mc, m = 2000, len(S)
+        for side, f_strict, f_weak in (("lower", float(np.mean(S < lb - 1e-12)), float(np.mean(S <= lb + 1e-12))),
+                                       ("upper", float(np.mean(S > ub + 1e-12)), float(np.mean(S >= ub - 1e-12)))):
+            k = n_mc * level
+            se = lambda f: 4 * math.sqrt(max(f * (1 - f), 1e-12) / m)  # noqa: E731
+            too_many = scipy.stats.binom.cdf(math.ceil(k) + 1, n_mc, max(0.0, f_strict - se(f_strict)))     # f far above level?
+            too_few = scipy.stats.binom.sf(math.floor(k) - 2, n_mc, min(1.0, f_weak + se(f_weak)))          # f far below level?
+            if min(too_many, too_few) < 1e-9:
+                ctx.violation("bounds", "C06:bounds_level",
+                              f"{name} level {level}, {side} bound {lb if side == 'lower' else ub}: the independent estimate puts {f_strict:.4f}..{f_weak:.4f} of the "
+                              f"statistic's distribution beyond it (binomial tail probabilities {too_many:.2e} / {too_few:.2e}); p={c['p']} N={N} eta={eta}")
+                raise EndRun()
     ctx.obs(round(float(b["lb_detect"]), 9), round(float(b["ub_detect"]), 9))
     ctx.state("bounds", c["p"], c["N"], c["eta"])
     ctx.nontrivial = True
